@@ -12,6 +12,7 @@ import Propka.Model.Protonate
 import Propka.Model.PairLoop
 import Propka.Model.Angle
 import Propka.Model.Coupling
+import Propka.Model.ResList
 /-! Line-protocol driver: one request per line `<module> <args…>`, one response line each. -/
 open Propka
 
@@ -33,6 +34,7 @@ def dispatch (ws : List String) : String :=
   | "topup" :: r => TopUp.handle r
   | "angle" :: r => Angle.handle r
   | "coupling" :: r => Coupling.handle r
+  | "reslist" :: r => ResList.handle r
   | ["ping"] => "pong"
   | _ => "bad-op"
 
